@@ -34,6 +34,9 @@ func genFrags(r *PRNG, n int) []int {
 func genC06(r *PRNG, tier string) *Scenario {
 	scn := &Scenario{Prop: "C06", Class: "limit", Seed: r.Uint64() >> 1, Sched: genSched(r)}
 	realIsServer := r.Bool()
+	if r.Chance(1, 8) {
+		return genC06BigLimit(r, scn, realIsServer)
+	}
 	L := r.Pick([]int{1, 2, 10, 125, 126, 512, r.Range(1, 5000)})
 	end := &EndCfg{ReadBuf: genBuf(r), WriteBuf: genWBuf(r, 125), ReadLimit: int64(L)}
 	var script []SItem
@@ -153,6 +156,10 @@ func oracleC06(run *Run) {
 	who := fmt.Sprintf("reader(server=%v,limit=%d)", e.IsServer, L)
 	rt := findTask(e, "reader")
 	obs, _ := observations(rt)
+	if run.Scn.Class == "big-limit" {
+		oracleC06Big(run, e, rt, obs, who)
+		return
+	}
 	// the verdict is derived from the script itself (a shrunk scenario may have lost its target)
 	kind := "within"
 	for _, it := range l.Script {
@@ -271,4 +278,76 @@ func rt0(run *Run) *TaskCfg {
 		}
 	}
 	return &TaskCfg{}
+}
+
+// genC06BigLimit: a generous limit and a header that claims (almost) all of it
+// while only a few bytes ever arrive: memory must follow the bytes received,
+// not the claim, whether the claim is within the limit or beyond it.
+func genC06BigLimit(r *PRNG, scn *Scenario, realIsServer bool) *Scenario {
+	scn.Class = "big-limit"
+	L := int64(r.Pick([]int{16 << 20, 64 << 20, 256 << 20}))
+	end := &EndCfg{ReadBuf: genBuf(r), WriteBuf: genWBuf(r, 125), ReadLimit: L}
+	claimed := uint64(L) - uint64(r.Pick([]int{0, 1, 1000}))
+	if r.Chance(1, 3) {
+		claimed = uint64(L) + uint64(r.Pick([]int{1, 1 << 20}))
+	}
+	mt := r.Range(1, 2)
+	script := []SItem{
+		{Kind: "msg", MT: 2, Pay: Payload{Len: r.Range(0, 100), Seed: 1}},
+		{Kind: "raw", B0: byte(0x80 | mt), LenCode: 127, Claimed: claimed, Pay: Payload{Len: r.Pick([]int{0, 3, 100}), Kind: "text", Seed: 2}, Reason: "huge"},
+	}
+	l := Link{Script: script, PeerClose: "fin"}
+	task := TaskCfg{Kind: "reader", R: []ROp{{Kind: r.PickS([]string{"rm", "rm", "nr"}), Sizes: []int{4096}}}, ExtraReads: 1}
+	if realIsServer {
+		end.Server = r.PickS([]string{"mini", "nethttp"})
+		l.Server = end
+		l.STasks = []TaskCfg{task}
+	} else {
+		l.Client = end
+		l.CTasks = []TaskCfg{task}
+	}
+	scn.Links = []Link{l}
+	scn.Net = NetCfg{DefCap: 1 << 16}
+	scn.Sched.IdleHorizon = 5000
+	return scn
+}
+
+func oracleC06Big(run *Run, e *RealEnd, rt *Task, obs []Obs, who string) {
+	if rt == nil || !rt.Finished {
+		run.fail("C06", "reader-stuck", "big-limit", "%s: the read program did not finish although the peer closed", who)
+		return
+	}
+	var claimed uint64
+	for _, it := range run.Scn.Links[0].Script {
+		if it.Kind == "raw" {
+			claimed = it.Claimed
+		}
+	}
+	if claimed == 0 {
+		return
+	}
+	run.Obligations++
+	over := claimed > uint64(e.Cfg.ReadLimit)
+	// the last observation must be an error (the frame never completes); ErrReadLimit iff the claim exceeds the limit
+	var last *Obs
+	for i := range obs {
+		if obs[i].Err != "" && obs[i].Err != "EOF" {
+			last = &obs[i]
+			break
+		}
+	}
+	if last == nil {
+		run.fail("C06", "over-limit-accepted", "big-limit", "%s: a frame claiming %d bytes (limit %d) of which almost nothing arrived produced no error", who, claimed, e.Cfg.ReadLimit)
+	} else if over && last.ErrVal != websocket.ErrReadLimit {
+		run.fail("C06", "wrong-error", "big-limit", "%s: a frame claiming %d bytes exceeds the limit %d but the error is %q", who, claimed, e.Cfg.ReadLimit, last.ErrText)
+	} else if !over && last.ErrVal == websocket.ErrReadLimit {
+		run.fail("C06", "within-limit-refused", "big-limit", "%s: a frame claiming %d bytes is within the limit %d but was refused with ErrReadLimit", who, claimed, e.Cfg.ReadLimit)
+	}
+	if run.AllocBytes > 0 {
+		received := uint64(e.Net.BytesRead())
+		limit := uint64(6<<20) + 4096*received + 512*run.Stats.Steps
+		if run.AllocBytes > limit {
+			run.fail("C06", "allocation-by-claimed-length", "big-limit", "%s: a header claiming %d bytes (limit %d) made the run allocate %d bytes after receiving %d bytes (bound %d)", who, claimed, e.Cfg.ReadLimit, run.AllocBytes, received, limit)
+		}
+	}
 }
